@@ -177,6 +177,16 @@ CAT = {
     "group_items": (lambda l: l.record_type in "OU", lambda g, l, o, k: l.items),
     "gap_fields": (_is("G"), lambda g, l, o, k: (l.sid1, l.sid2, l.disp, l.var)),
     "fragment_fields": (_is("F"), lambda g, l, o, k: (l.sid, l.external, l.s_beg, l.s_end, l.f_beg, l.f_end)),
+    "pos_ops": (lambda l: l.record_type in ("E", "F"), lambda g, l, o, k: [
+        (gfapy.posvalue(p_), gfapy.islastpos(p_), gfapy.isfirstpos(p_), str(p_), p_ == p_, p_ - 0, (p_ - 1) if gfapy.posvalue(p_) > 0 else None, p_ < 10 ** 9)
+        for p_ in [l.get(fn_) for fn_ in l.positional_fieldnames if fn_[:3] in ("beg", "end") or fn_[:2] in ("s_", "f_")]]),
+    "oriented_ops": (lambda l: l.record_type in ("E", "G", "O", "F"), lambda g, l, o, k: [
+        (str(x_), x_.name, x_.orient, str(x_.inverted()), x_ == x_.inverted().inverted())
+        for x_ in ([l.sid1, l.sid2] if l.record_type in "EG" else (list(l.items) if l.record_type == "O" else [l.external]))]),
+    "segment_end_ops": (lambda l: l.record_type in ("L", "E") and (l.record_type == "L" or l.is_dovetail()), lambda g, l, o, k: (
+        str(l.from_end.inverted()), str(l.to_end.inverted()), l.from_end == l.to_end, repr(l.from_end), l.from_end.name, l.from_end.end_type)),
+    "link_hash": (_is("L"), lambda g, l, o, k: (hash(l) == hash(l.complement()), l.is_canonical(), str(l.canonicize()) if hasattr(l, "canonicize") and False else None)),
+    "gfa_headers": (None, lambda g, l, o, k: [str(h) for h in g.headers]),
     # gfa level
     "gfa_str": (None, lambda g, l, o, k: str(g)),
     "gfa_validate": (None, lambda g, l, o, k: g.validate()),
